@@ -389,39 +389,45 @@ def timeAtoi (s : Bytes) : Option Int :=
 
 def cutspace (s : Bytes) : Bytes := s.dropWhile (· == 32)
 
-/-- `skip(value, prefix)`: literal text, runs of spaces equivalent. -/
-def skip : Nat → Bytes → Bytes → Except String Bytes
-  | 0, v, _ => .ok v
-  | _ + 1, v, [] => .ok v
-  | fuel + 1, v, p :: ps =>
+/-- `skip(value, prefix)`: literal text, runs of spaces equivalent.  Go cuts a run of spaces off
+both strings at once; here the prefix is walked byte by byte and `sp` records that the previous
+prefix byte was a space (so the value has been cut already). -/
+def skipAux : Bool → Bytes → Bytes → Except String Bytes
+  | _, v, [] => .ok v
+  | sp, v, p :: ps =>
     if p = 32 then
-      match v with
-      | c :: _ => if c ≠ 32 then .error "bad" else skip fuel (cutspace v) (cutspace (p :: ps))
-      | [] => skip fuel (cutspace v) (cutspace (p :: ps))
+      if sp then skipAux true v ps
+      else match v with
+        | c :: _ => if c ≠ 32 then .error "bad" else skipAux true (cutspace v) ps
+        | [] => skipAux true [] ps
     else
       match v with
-      | c :: vs => if c = p then skip fuel vs ps else .error "bad"
+      | c :: vs => if c = p then skipAux false vs ps else .error "bad"
       | [] => .error "bad"
 
-/-- `match(s1, s2)`: ASCII case-insensitive equality of equally long strings. -/
-def matchCI : Bytes → Bytes → Bool
-  | [], [] => true
-  | a :: s, b :: t =>
-    (if a = b then true
-     else
+def skip (v p : Bytes) : Except String Bytes := skipAux false v p
+
+/-- `len(val) >= len(v) && match(val[0:len(v)], v)`, returning the rest: ASCII case-insensitive
+prefix. -/
+def stripCI : Bytes → Bytes → Option Bytes
+  | [], val => some val
+  | _ :: _, [] => none
+  | b :: name, a :: val =>
+    if a = b then stripCI name val
+    else
       let a' := a ||| 0x20
       let b' := b ||| 0x20
-      decide (a' = b') && decide (97 ≤ a' ∧ a' ≤ 122)) && matchCI s t
-  | _, _ => false
+      if a' = b' ∧ 97 ≤ a' ∧ a' ≤ 122 then stripCI name val else none
+
+def lookupGo : List Bytes → Nat → Bytes → Except String (Int × Bytes)
+  | [], _, _ => .error "bad"
+  | v :: r, i, val =>
+    match stripCI v val with
+    | some rest => .ok (i, rest)
+    | none => lookupGo r (i + 1) val
 
 /-- `lookup(tab, val)`. -/
-def lookupName (tab : List Bytes) (val : Bytes) : Except String (Int × Bytes) :=
-  let rec go : List Bytes → Nat → Except String (Int × Bytes)
-    | [], _ => .error "bad"
-    | v :: r, i =>
-      if val.length ≥ v.length && matchCI (val.take v.length) v then .ok (i, val.drop v.length)
-      else go r (i + 1)
-  go tab 0
+def lookupName (tab : List Bytes) (val : Bytes) : Except String (Int × Bytes) := lookupGo tab 0 val
 
 def commaOrPeriod (b : UInt8) : Bool := b = 46 || b = 44
 
@@ -471,6 +477,12 @@ def parseTimeZone (value : Bytes) : Option Nat :=
     else if nUpper = 4 then (if value.getD 3 0 = 84 ∨ value.take 4 = asc "WITA" then some 4 else none)
     else if nUpper = 3 then some 3
     else none
+
+/-- drop one leading space, if any -/
+def dropSpace1 (v : Bytes) : Bytes :=
+  match v with
+  | 32 :: r => r
+  | v => v
 
 /-- The numeric zone cases of `parse` (`-0700`, `Z07:00`, …), after the optional `Z`. -/
 def parseNumZone (k : ZKind) (value : Bytes) (st : PState) : PRes :=
@@ -540,11 +552,11 @@ def parseStd (s : Std) (next : Option Std) (value : Bytes) (st : PState) : PRes 
     let (_, r) ← lookupName longDayNames value
     pure (r, st)
   | .day | .underDay | .zeroDay => do
-    let value := if s = .underDay then (match value with | 32 :: r => r | v => v) else value
+    let value := if s = .underDay then dropSpace1 value else value
     let (d, r) ← getnum value (s = .zeroDay)
     pure (r, { st with day := d })
   | .underYearDay | .zeroYearDay => do
-    let strip1 (v : Bytes) : Bytes := if s = .underYearDay then (match v with | 32 :: r => r | v => v) else v
+    let strip1 (v : Bytes) : Bytes := if s = .underYearDay then dropSpace1 v else v
     let (d, r) ← getnum3 (strip1 (strip1 value)) (s = .zeroYearDay)
     pure (r, { st with yday := d })
   | .hour => do
@@ -618,7 +630,7 @@ def nextStd : List Tok → Option Std
 def parseToks : List Tok → Bytes → PState → Except String PState
   | [], v, st => if v.isEmpty then .ok st else .error "extra text"
   | .lit p :: ts, v, st =>
-    match skip (p.length + v.length + 1) v p with
+    match skip v p with
     | .ok v' => parseToks ts v' st
     | .error e => .error e
   | .std s :: ts, v, st =>
@@ -726,7 +738,7 @@ def modeOf (tbl : List (Bytes × Bytes)) (format : Bytes) : Mode :=
 inductive Out
   | val (b : Bytes)
   | unmodelled (why : String)
-  deriving Repr
+  deriving DecidableEq, Repr
 
 /-- `time.ParseInLocation(layout, str, tz)` followed by `f`, or `ErrorParsing`. -/
 def parseThen (layout str : Bytes) (f : Parsed → Out) : Out :=
